@@ -37,7 +37,10 @@ static MODEL_EVALS: AtomicU64 = AtomicU64::new(0);
 
 thread_local! {
     pub static EXPECT_PANIC: std::cell::Cell<bool> = const { std::cell::Cell::new(false) };
+    /// the calling worker's own handle (0 = none), for closures that defer again when they run
+    static CUR_HANDLE: std::cell::Cell<usize> = const { std::cell::Cell::new(0) };
 }
+static NESTED: AtomicU64 = AtomicU64::new(0);
 
 fn reg(g: &Guard) -> u64 {
     let serial = SERIAL.fetch_add(1, SeqCst);
@@ -211,7 +214,10 @@ struct ET {
     weights: Vec<u32>,
 }
 
-const OPS: [&str; 12] = ["pin", "unpin", "reactivate", "reactivate_after", "defer", "flush", "collect", "try_advance", "defer-burst", "extra-handle", "drop-extra-handle", "reactivate_after-panic"];
+const OPS: [&str; 14] = [
+    "pin", "unpin", "reactivate", "reactivate_after", "defer", "flush", "collect", "try_advance", "defer-burst", "extra-handle", "drop-extra-handle",
+    "reactivate_after-panic", "drop-handle-keep-guards", "defer-nesting",
+];
 
 impl ET {
     fn live(&self) -> Vec<usize> {
@@ -222,9 +228,15 @@ impl ET {
     }
     /// C16: the three-line model, checked through the private state of the participant.
     fn check_model(&self, what: &str) {
-        let Some(h) = self.handle.as_ref() else { return };
-        let st = V::handle_state(h);
         let n = self.live().len();
+        let st = match self.handle.as_ref() {
+            Some(h) => V::handle_state(h),
+            None => {
+                // the handle is gone; a live guard keeps the participant alive and registered
+                let Some(&s) = self.live().first() else { return };
+                V::local_state(self.guards[s].g.as_ref().unwrap()).unwrap()
+            }
+        };
         MODEL_EVALS.fetch_add(1, Relaxed);
         mon::eval("guard-model");
         if st.guard_count != n {
@@ -257,6 +269,7 @@ impl ET {
     }
     fn pin(&mut self, slot: usize) {
         let g = self.handle.as_ref().unwrap().pin();
+        CUR_HANDLE.with(|c| c.set(self.handle.as_ref().unwrap() as *const LocalHandle as usize));
         let serial = reg(&g);
         self.guards[slot] = GSlot { g: Some(g), serial };
     }
@@ -268,6 +281,9 @@ impl ET {
     fn some_guard(&mut self) -> usize {
         let l = self.live();
         if l.is_empty() {
+            if self.handle.is_none() {
+                return usize::MAX;
+            }
             self.pin(0);
             self.lg("g0 = pin() (implicit)".into());
             0
@@ -293,7 +309,7 @@ impl ET {
         match op {
             0 => {
                 let free: Vec<usize> = (0..self.guards.len()).filter(|&i| self.guards[i].g.is_none()).collect();
-                if free.is_empty() {
+                if free.is_empty() || self.handle.is_none() {
                     return false;
                 }
                 let s = *self.rng.pick(&free);
@@ -334,12 +350,22 @@ impl ET {
                 let panic = op == 11;
                 dereg(self.guards[s].serial);
                 self.lg(format!("g{}.reactivate_after(inspect{}) sole={}", s, if panic { "+panic" } else { "" }, sole));
-                let h: *const LocalHandle = self.handle.as_ref().unwrap();
+                let h: *const LocalHandle = match self.handle.as_ref() {
+                    Some(h) => h,
+                    None => std::ptr::null(),
+                };
                 let nlive = l.len();
                 let mut g = self.guards[s].g.take().unwrap();
+                let lstate = V::local_state(&g).unwrap();
                 let body = move || {
                     // inside the closure the thread is unpinned iff this was the sole guard
-                    let st = V::handle_state(unsafe { &*h });
+                    let st = if h.is_null() {
+                        // no handle: read the participant's epoch word (it must still exist)
+                        let (p, a) = unsafe { V::local_epoch_of(lstate.local) };
+                        V::LocalState { pinned: p, announced: a, guard_count: nlive - 1, ..lstate }
+                    } else {
+                        V::handle_state(unsafe { &*h })
+                    };
                     MODEL_EVALS.fetch_add(1, Relaxed);
                     if st.pinned != !sole || st.guard_count != nlive - 1 {
                         mon::observer_violation(
@@ -372,29 +398,44 @@ impl ET {
             }
             4 => {
                 let s = self.some_guard();
+                if s == usize::MAX {
+                    return false;
+                }
                 let id = do_defer(self.gref(s), &mut self.rng);
                 self.lg(format!("defer(c{}) via g{}", id, s));
             }
             5 => {
                 let s = self.some_guard();
+                if s == usize::MAX {
+                    return false;
+                }
                 self.lg(format!("g{}.flush()", s));
                 self.gref(s).flush();
                 self.check_model("flush");
             }
             6 => {
                 let s = self.some_guard();
+                if s == usize::MAX {
+                    return false;
+                }
                 self.lg(format!("collect(g{})", s));
                 V::collect(self.gref(s));
                 self.check_model("collect");
             }
             7 => {
                 let s = self.some_guard();
+                if s == usize::MAX {
+                    return false;
+                }
                 let e = V::try_advance(self.gref(s));
                 self.lg(format!("try_advance(g{}) -> {}", s, e));
                 self.check_model("try_advance");
             }
             8 => {
                 let s = self.some_guard();
+                if s == usize::MAX {
+                    return false;
+                }
                 let n = self.rng.range(20, 70);
                 self.lg(format!("defer x{} via g{}", n, s));
                 for _ in 0..n {
@@ -403,7 +444,7 @@ impl ET {
                 self.check_model("defer-burst");
             }
             9 => {
-                if self.extra.is_some() {
+                if self.extra.is_some() || self.handle.is_none() {
                     return false;
                 }
                 self.extra = Some(self.collector.register());
@@ -422,11 +463,61 @@ impl ET {
                 self.lg("drop(extra handle)".into());
                 self.extra = None;
             }
+            12 => {
+                // the handle goes away while guards stay alive (what a guard taken in a TLS destructor
+                // after the thread's handle was destroyed looks like): the participant must stay
+                // registered and pinned, also across reactivate / reactivate_after
+                if self.handle.is_none() || self.live().is_empty() {
+                    return false;
+                }
+                CUR_HANDLE.with(|c| c.set(0));
+                self.extra = None;
+                self.handle = None;
+                self.lg("drop(handle) with guards alive; program continues on the guards".into());
+                self.check_model("drop-handle");
+            }
+            13 => {
+                // a closure that, when it runs (inside some thread's collection), defers another closure
+                // through that thread's own participant
+                let s = self.some_guard();
+                if s == usize::MAX {
+                    return false;
+                }
+                let count = if self.rng.chance(1, 3) { self.rng.range(40, 140) } else { 1 };
+                self.lg(format!("defer x{} (closures that defer again when they run) via g{}", count, s));
+                for _ in 0..count {
+                let id = NEXT_C.fetch_add(1, SeqCst);
+                if id >= MAXC {
+                    mon::harness_error("closure table exhausted");
+                }
+                let set: Vec<u64> = ACTIVE.lock().unwrap().iter().map(|r| r.serial).collect();
+                unsafe {
+                    V::defer(self.gref(s), move || {
+                        on_run(id, &set, true, "nesting");
+                        let h = CUR_HANDLE.with(|c| c.get());
+                        if h != 0 {
+                            let handle = &*(h as *const LocalHandle);
+                            let g = handle.pin();
+                            let inner = NEXT_C.fetch_add(1, SeqCst);
+                            if inner < MAXC {
+                                NESTED.fetch_add(1, Relaxed);
+                                // guards active now (foreign ones) must outlive the inner closure's deferral
+                                let me = sched::wid();
+                                let set2: Vec<u64> = ACTIVE.lock().unwrap().iter().filter(|r| r.wid != me).map(|r| r.serial).collect();
+                                V::defer(&g, move || on_run(inner, &set2, true, "nested-inner"));
+                            }
+                            drop(g);
+                        }
+                    });
+                }
+                }
+            }
             _ => return false,
         }
         true
     }
     fn finish(&mut self, handle_first: bool) {
+        CUR_HANDLE.with(|c| c.set(0));
         if handle_first && !self.live().is_empty() {
             // the handle goes away while a guard is still alive; the participant must stay
             // registered and pinned until the guard is dropped
@@ -473,15 +564,15 @@ pub struct EbrStats {
 fn weights(profile: &str) -> Vec<u32> {
     // pin unpin react react_after defer flush collect advance burst extra drop-extra react-panic
     match profile {
-        "c13" => vec![8, 8, 1, 1, 16, 5, 8, 6, 3, 1, 1, 0],
-        "c14" => vec![10, 10, 2, 1, 6, 4, 10, 12, 2, 1, 1, 0],
-        "c15" => vec![6, 7, 1, 1, 14, 5, 5, 3, 8, 2, 2, 0],
-        "c16" => vec![12, 12, 8, 6, 4, 3, 4, 3, 1, 0, 0, 2],
+        "c13" => vec![8, 8, 1, 1, 16, 5, 8, 6, 3, 1, 1, 0, 1, 6],
+        "c14" => vec![10, 10, 3, 2, 6, 4, 10, 12, 2, 1, 1, 0, 3, 1],
+        "c15" => vec![6, 7, 1, 1, 14, 5, 5, 3, 8, 2, 2, 0, 1, 3],
+        "c16" => vec![12, 12, 8, 6, 4, 3, 4, 3, 1, 0, 0, 2, 4, 0],
         // the real participant registry: handles registering and leaving while others advance
-        "c18e" => vec![10, 9, 1, 0, 3, 2, 8, 12, 1, 10, 10, 0],
+        "c18e" => vec![10, 9, 3, 2, 3, 2, 8, 12, 1, 10, 10, 0, 3, 0],
         // small programs for Miri
-        "tiny" => vec![8, 8, 2, 1, 10, 4, 6, 5, 0, 1, 1, 0],
-        _ => vec![8, 8, 2, 2, 10, 4, 6, 5, 3, 1, 1, 1],
+        "tiny" => vec![8, 8, 2, 1, 10, 4, 6, 5, 0, 1, 1, 0, 1, 1],
+        _ => vec![8, 8, 2, 2, 10, 4, 6, 5, 3, 1, 1, 1, 1, 1],
     }
 }
 
@@ -608,12 +699,41 @@ fn run_one(cfg: &EbrCfg, eseed: u64, idx: u64, st: &mut EbrStats) {
         st.variants.inc("survivor-rounds");
         let h = collector.register();
         let bound = 64 + (last_c - first_c) as u64 / 4;
+        // the shape of the survivor's pin/flush/unpin rounds varies
+        let shape = rng.below(4);
+        st.variants.inc(["round=pin-flush-unpin", "round=nested-inner-flush", "round=flush-reactivate", "round=flush-then-second-guard"][shape as usize]);
+        let mut long_guard = if shape == 2 { Some(h.pin()) } else { None };
         while pending(first_c, last_c) > 0 && rounds < bound {
-            let g = h.pin();
-            g.flush();
-            drop(g);
+            match shape {
+                0 => {
+                    let g = h.pin();
+                    g.flush();
+                    drop(g);
+                }
+                1 => {
+                    let outer = h.pin();
+                    {
+                        let inner = h.pin();
+                        inner.flush();
+                    }
+                    drop(outer);
+                }
+                2 => {
+                    let g = long_guard.as_mut().unwrap();
+                    g.flush();
+                    g.reactivate();
+                }
+                _ => {
+                    let g = h.pin();
+                    g.flush();
+                    let g2 = h.pin();
+                    drop(g2);
+                    drop(g);
+                }
+            }
             rounds += 1;
         }
+        drop(long_guard.take());
         let p = pending(first_c, last_c);
         if p > 0 {
             let lost: Vec<usize> = (first_c..last_c).filter(|i| EXEC[*i % MAXC].load(SeqCst) == 0).take(5).collect();
@@ -714,6 +834,7 @@ pub fn summary(cfg: &EbrCfg, st: &EbrStats, wall: f64) -> J {
         .set("epoch_samples", SAMPLES.load(Relaxed))
         .set("model_evaluations", MODEL_EVALS.load(Relaxed))
         .set("advances_with_foreign_guard", ADV_WITH_FOREIGN.load(Relaxed))
+        .set("nested_defers_from_running_closures", NESTED.load(Relaxed))
         .set("defers_with_foreign_guard", DEFER_WITH_FOREIGN.load(Relaxed))
         .set("site_preempt", pre)
         .set("stalls", &st.stalls)
